@@ -1550,6 +1550,12 @@ func (in *Interp) sliceOp(instr *ssa.Slice, x, lo, hi, max value) value {
 				}
 			}
 		}
+		if x.Kind != sBytes {
+			// structured string cut at a position that provably is a part boundary or lies inside a byte-precise part
+			if r, ok := in.sliceStructured(x, lo, hi); ok {
+				return r
+			}
+		}
 		b := in.strBytes(x, "string slicing")
 		l := conc(lo, 0, len(b), "slice low")
 		h := conc(hi, len(b), len(b), "slice high")
@@ -2027,3 +2033,66 @@ func (in *Interp) describe(v value) string {
 }
 
 var _ = big.NewInt
+
+// sliceStructured: s[lo:hi] on a structured string. A cut point is accepted when it provably (by constant folding or
+// by the solver, under the path condition) equals the length of a prefix made of whole parts plus k bytes of the
+// following byte-precise part. A cut beyond the string's length is a slice-bounds panic like in Go.
+func (in *Interp) sliceStructured(x *Str, lo, hi value) (*Str, bool) {
+	cut := func(s *Str, at *Term) (before, after *Str, ok bool) {
+		ps := parts(s)
+		cum := BVu(64, 0)
+		at = toW(at, 64, true)
+		same := func(a, b *Term) bool {
+			e := Eq(a, b)
+			if e.Const {
+				return e.IsTrue()
+			}
+			r, _ := in.sol.CheckWith(Not(e).S)
+			return r == Unsat
+		}
+		for i := 0; i <= len(ps); i++ {
+			if same(cum, at) {
+				return concatStr(ps[:i]...), concatStr(ps[i:]...), true
+			}
+			if i == len(ps) {
+				break
+			}
+			p := ps[i]
+			if p.Kind == sBytes {
+				for k := 1; k < len(p.B); k++ {
+					if same(Add(cum, BVu(64, uint64(k))), at) {
+						b := append(append([]*Str{}, ps[:i]...), &Str{Kind: sBytes, B: p.B[:k]})
+						a := append([]*Str{{Kind: sBytes, B: p.B[k:]}}, ps[i+1:]...)
+						return concatStr(b...), concatStr(a...), true
+					}
+				}
+			}
+			cum = Add(cum, in.strLen(p))
+		}
+		return nil, nil, false
+	}
+	cur := x
+	if hi != nil {
+		ht := hi.(*Term)
+		total := in.strLen(cur)
+		if in.branch(ULt(total, toW(ht, 64, true))) {
+			panic(targetPanic{Msg: "slice bounds out of range (structured string)"})
+		}
+		b, _, ok := cut(cur, ht)
+		if !ok {
+			return nil, false
+		}
+		cur = b
+	}
+	if lo != nil {
+		lt := lo.(*Term)
+		if !(lt.Const && lt.Int() == 0) {
+			_, a, ok := cut(cur, lt)
+			if !ok {
+				return nil, false
+			}
+			cur = a
+		}
+	}
+	return cur, true
+}
